@@ -307,6 +307,8 @@ func (x *Exec) builtin(f *Frame, st *State, b *ssa.Builtin, info *CallInfo) []ca
 		return single(st, info.Args[0])
 	case "len":
 		switch v := info.Args[0].(type) {
+		case *OpaqueVal:
+			return single(st, x.opaqueLen(st, v))
 		case *Term:
 			switch {
 			case isSliceSort(v.Sort):
